@@ -71,6 +71,11 @@ def case(draw):
     c0 = progs[0]["prog"]
     caller = draw(gen_prog.program(gen_cfg(), args=[["a", c0["args"][0][1]], ["b", ["bool"]]], fns={c0["name"]: ([c0["args"][0][1]], ["bool"])}, name="caller"))
     progs.append({"kind": "caller", "prog": caller, "callee": 0})
+    # a PARAMETERISED caller of program 0: compiled with defs=[...] it stays unbound and is bound several times
+    pcaller = draw(gen_prog.program(gen_cfg(), args=[["a", c0["args"][0][1]], ["p", ["int", 2]]], params=("p",),
+                                    fns={c0["name"]: ([c0["args"][0][1]], ["bool"])}, name="pcaller"))
+    pcaller["params"] = ["p"]
+    progs.append({"kind": "caller", "prog": pcaller, "callee": 0, "parametric": True})
     ops = []
     nops = draw(st.integers(3, 8))
     small = st.integers(0, 9)
@@ -78,8 +83,14 @@ def case(draw):
     # a prefix that makes several objects live: compile a few pool programs (the parameterised one included)
     for pi in draw(st.permutations([0, 1, 2, 3, 4]))[: draw(st.integers(2, 3))]:
         ops.append(["compile", pi, draw(optd)])
+    if draw(st.integers(0, 9)) < 4:
+        # a parameterised function compiled with defs=[live callee] and bound several times in a row
+        ops.append(["compile", 0, draw(optd)])
+        ops.append(["defs", 1, draw(optd)])
+        for _ in range(draw(st.integers(2, 3))):
+            ops.append(["bind_last", 0, {"p": draw(st.integers(0, 3))}])
     for _ in range(nops):
-        k = draw(st.sampled_from(["compile", "compile", "compile", "bind", "bind", "bind", "defs", "oraclize", "grover", "grover", "dj", "bv", "simon", "export", "export", "decompile", "optimize", "tt", "logicfun", "logicfun", "repr"]))
+        k = draw(st.sampled_from(["compile", "compile", "compile", "bind", "bind", "bind", "defs", "defs", "oraclize", "grover", "grover", "dj", "bv", "simon", "export", "export", "decompile", "optimize", "tt", "logicfun", "logicfun", "repr"]))
         if k == "compile":
             ops.append([k, draw(small), draw(optd)])
         elif k == "bind":
@@ -352,8 +363,11 @@ def judge(case):  # noqa: C901
                 continue
             recipe = ["compile", srcs[pi], op[2]]
             kind = {"pred": "pred", "gen": "qf", "fun1": "fun1", "param": "unbound"}[case["programs"][pi]["kind"]]
-        elif k == "bind":
+        elif k in ("bind", "bind_last"):
             x = pick(("unbound",), op[1])
+            if k == "bind_last":
+                ub = [y for y in live if y["kind"] == "unbound"]
+                x = ub[-1] if ub else None
             if not x:
                 continue
             operands = [x]
@@ -363,7 +377,7 @@ def judge(case):  # noqa: C901
             callers = [i for i, p in enumerate(case["programs"]) if p["kind"] == "caller"]
             if not callers:
                 continue
-            ci = callers[0]
+            ci = callers[op[1] % len(callers)]
             callee_src = srcs[case["programs"][ci]["callee"]]
             cands = [x for x in live if x["kind"] == "pred" and x["recipe"][0] == "compile" and x["recipe"][1] == callee_src]
             if not cands:
@@ -371,7 +385,7 @@ def judge(case):  # noqa: C901
             x = cands[op[1] % len(cands)]
             operands = [x]
             recipe = ["defs", srcs[ci], [["live", x["obj"], x["recipe"]]], op[2]]
-            kind = "qf"
+            kind = "unbound" if case["programs"][ci].get("parametric") else "qf"
         elif k == "oraclize":
             x = pick(("pred", "fun1"), op[1])
             if not x:
